@@ -172,6 +172,57 @@ Proof.
   exists c, r. repeat split; auto. now apply negb_true_iff in H.
 Qed.
 
+(* ---- an accepted uplink data-rate is a data-rate of the band ------------------- *)
+
+Lemma uplink_dr_check_all : all_cells uplink_dr_check = true.
+Proof. vm_compute. reflexivity. Qed.
+
+Lemma rx1_uplink_dr_defined c : In c band_configs -> forall dr off r,
+  get_rx1_dr c dr off = Ok r -> dr_defined (c_tab c) dr = true.
+Proof.
+  intros Hc dr off r Hr.
+  pose proof (all_cells_lift _ uplink_dr_check_all c Hc dr off r Hr) as H.
+  unfold uplink_dr_check in H. now rewrite Hr in H.
+Qed.
+
+(* ---- an accepted offset is one the region defines ------------------------------- *)
+
+Lemma offset_check_all : all_cells offset_check = true.
+Proof. vm_compute. reflexivity. Qed.
+
+Lemma offset_cell_known_In x : offset_cell_known x = true -> In x c12_known_offset_cells.
+Proof.
+  unfold offset_cell_known. rewrite existsb_exists. intros [y [Hy E]]. apply cell_eqb_eq in E. now subst.
+Qed.
+
+Lemma rx1_offset_in_range c : In c band_configs -> forall reg, region_of (c_name c) = Some reg ->
+  forall dr off r, get_rx1_dr c dr off = Ok r ->
+  off <= spec_max_rx1_offset reg \/ In (c_name c, dr, off) c12_known_offset_cells.
+Proof.
+  intros Hc reg Hreg dr off r Hr.
+  pose proof (all_cells_lift _ offset_check_all c Hc dr off r Hr) as H.
+  unfold offset_check in H. rewrite Hreg, Hr in H. unfold rx1_offset_rule in H.
+  apply orb_true_iff in H as [H|H]; [|right; now apply offset_cell_known_In].
+  left. destruct (Z.gtb_spec off (spec_max_rx1_offset reg)); [discriminate | lia].
+Qed.
+
+Lemma offset_refuted_all : forallb offset_refuted_check c12_known_offset_cells = true.
+Proof. vm_compute. reflexivity. Qed.
+
+Lemma rx1_offset_known_refuted : forall name dr off, In (name, dr, off) c12_known_offset_cells ->
+  exists c reg r, In c band_configs /\ c_name c = name /\ region_of name = Some reg
+                  /\ off > spec_max_rx1_offset reg /\ get_rx1_dr c dr off = Ok r.
+Proof.
+  intros name dr off Hin. pose proof offset_refuted_all as H. rewrite forallb_forall in H.
+  specialize (H _ Hin). unfold offset_refuted_check in H. cbn [fst snd] in H.
+  apply existsb_exists in H as [c [Hc H]]. apply andb_true_iff in H as [Hn H].
+  apply String.eqb_eq in Hn. destruct (region_of (c_name c)) as [reg|] eqn:R; [|discriminate].
+  apply andb_true_iff in H as [Ho Hk].
+  destruct (get_rx1_dr c dr off) as [r| | |] eqn:E; try discriminate.
+  exists c, reg, r. subst name. repeat split; auto.
+  destruct (Z.gtb_spec off (spec_max_rx1_offset reg)); [lia | discriminate].
+Qed.
+
 (* ---- every configuration belongs to a region of the specification ------------ *)
 
 Lemma regions_check_ok : regions_check = true.
